@@ -83,21 +83,20 @@ def read_groundwater_table(
 
             elif WTMethod == "Variable":
 
-                # Linear interpolation between dates
+                # Linear interpolation (in time) between dates. Observations
+                # outside the simulation period count with their own date;
+                # days before the first (after the last) observation take
+                # its depth
+                obs = pd.Series(
+                    np.array(df["Depth(mm)"].values, dtype=float), index=pd.DatetimeIndex(df.Date)
+                ).sort_index()
+                obs = obs[~obs.index.duplicated(keep="last")]
 
-                # create daily depths for each simulation day
-                # fill unspecified days with NaN
-                z_gw = pd.Series(
-                    np.nan * np.ones(len(ClockStruct.time_span)), index=ClockStruct.time_span
-                )
+                all_days = obs.index.union(pd.DatetimeIndex(ClockStruct.time_span))
+                z_gw = obs.reindex(all_days).interpolate(method="time", limit_direction="both")
 
-                for row in range(len(df)):
-                    date = df.Date.iloc[row]
-                    depth = df["Depth(mm)"].iloc[row]
-                    z_gw.loc[date] = depth
-
-                # Interpolate daily groundwater depths
-                z_gw = z_gw.interpolate()
+                # daily depths for each simulation day
+                z_gw = z_gw.reindex(pd.DatetimeIndex(ClockStruct.time_span))
 
         # assign values to Paramstruct object
         ParamStruct.z_gw = z_gw.values
